@@ -39,6 +39,9 @@ impl TableRefresh {
         socket: &Socket,
         timer: &mut Timer<ScheduledTaskCheck>,
     ) {
+        #[cfg(feature = "verif")]
+        crate::verif_probe::refresh_round_started();
+
         if self.curr_refresh_bucket == table::MAX_BUCKETS {
             self.curr_refresh_bucket = 0;
         }
